@@ -22,7 +22,7 @@ model; a part may keep state between lines (`State`).  `reset` clears all state.
 open Synap
 
 structure State where
-  mods : Modules.World := Modules.World.empty
+  mods : Modules.CWorld := {}
   opt : Drv.Optim.St := .none
   optstore : Drv.OptimStore.St := .none
   bn : Drv.Layers.St := {}
@@ -36,7 +36,7 @@ def step (st : State) (line : String) : State × String :=
   | [] => (st, "")
   | "data" :: rest => (st, Drv.Data.run rest)
   | "train" :: rest => let (w, o) := Drv.Train.runS st.tr rest; ({ st with tr := w }, o)
-  | "mod" :: rest => let (w, o) := Drv.Modules.run st.mods rest; ({ st with mods := w }, o)
+  | "mod" :: rest => let (w, o) := Drv.Modules.runC st.mods rest; ({ st with mods := w }, o)
   | "opt" :: rest => let (w, o) := Drv.Optim.run st.opt rest; ({ st with opt := w }, o)
   | "optstore" :: rest => let (w, o) := Drv.OptimStore.run st.optstore rest; ({ st with optstore := w }, o)
   | "bn" :: rest => let (w, o) := Drv.Layers.run st.bn rest; ({ st with bn := w }, o)
